@@ -300,14 +300,86 @@ type cfgOp struct {
 	Design []float32    `json:"design,omitempty"`
 	PpemX  uint16       `json:"ppem_x,omitempty"`
 	PpemY  uint16       `json:"ppem_y,omitempty"`
+	// round trips: index into the slices kept by the case (restore_coords)
+	Saved int `json:"saved,omitempty"`
+	// the caller overwrites the slices it passed (variations, text, features) right after the call
+	// returned: only an object that kept a reference can notice
+	MutateAfter bool `json:"mutate_after,omitempty"`
 }
+
+// Values that flow OUT of an object and INTO the same or another one. The case keeps the very
+// slices it read from a face (Coords, NormalizeVariations) or passed to it (SetCoords), together
+// with a copy of their values at that time, and later feeds the same slice objects to SetCoords of
+// the same face (save and restore) or of a sibling face (transfer). The model - and so the fresh
+// face of the oracle - is configured from the VALUES. Coordinates are treated as immutable values
+// shared by reference, which is how the library treats them (SetCoords keeps the slice, Coords
+// returns it "read-only"): the case never writes into such a slice, and nothing is claimed about
+// the content of a slice obtained earlier, only about results.
+type savedCoords struct {
+	s    []tables.Coord
+	vals []int16
+}
+
+type coordsStore struct{ saved []savedCoords }
+
+func (cs *coordsStore) keep(s []tables.Coord) {
+	vals := make([]int16, len(s))
+	for i, c := range s {
+		vals[i] = int16(c)
+	}
+	cs.saved = append(cs.saved, savedCoords{s: s, vals: vals})
+}
+
+// apply performs a round-trip op; it reports whether kind was one and an error for a replayed
+// case that does not fit.
+func (cs *coordsStore) apply(kind string, o cfgOp, f *font.Face, c *faceCfg, nAxes int) (bool, error) {
+	switch kind {
+	case "save_coords":
+		cs.keep(f.Coords())
+	case "restore_coords":
+		if o.Saved < 0 || o.Saved >= len(cs.saved) {
+			return true, fmt.Errorf("restore_coords: no saved slice %d", o.Saved)
+		}
+		sv := cs.saved[o.Saved]
+		c.Mode, c.Vars, c.Design = "coords", nil, nil
+		c.Coords = append([]int16(nil), sv.vals...)
+		f.SetCoords(sv.s)
+	case "set_coords_kept":
+		if len(o.Coords) != 0 && len(o.Coords) != nAxes {
+			return true, fmt.Errorf("coords of the wrong length")
+		}
+		s := toCoords(o.Coords)
+		cs.keep(s)
+		c.Mode, c.Vars, c.Coords, c.Design = "coords", nil, o.Coords, nil
+		f.SetCoords(s)
+	case "set_design_kept":
+		if len(o.Design) != nAxes {
+			return true, fmt.Errorf("design coords of the wrong length")
+		}
+		s := f.NormalizeVariations(append([]float32(nil), o.Design...))
+		cs.keep(s)
+		c.Mode, c.Vars, c.Coords, c.Design = "design", nil, nil, o.Design
+		f.SetCoords(s)
+	default:
+		return false, nil
+	}
+	return true, nil
+}
+
+var roundTripKinds = map[string]bool{"save_coords": true, "restore_coords": true, "set_coords_kept": true, "set_design_kept": true}
 
 // applyCfgOp performs the setter named by kind on the used face and updates the model.
 func applyCfgOp(kind string, o cfgOp, f *font.Face, c *faceCfg) {
 	switch kind {
 	case "set_variations":
 		c.Mode, c.Vars, c.Coords, c.Design = "variations", o.Vars, nil, nil
-		f.SetVariations(toVariations(o.Vars))
+		vs := toVariations(o.Vars)
+		f.SetVariations(vs)
+		if o.MutateAfter {
+			for i := range vs {
+				vs[i] = font.Variation{Tag: mustTag("zzzz"), Value: -12345}
+			}
+		}
 	case "set_coords":
 		c.Mode, c.Vars, c.Coords, c.Design = "coords", nil, o.Coords, nil
 		f.SetCoords(toCoords(o.Coords))
